@@ -15,6 +15,8 @@ import XmppModel.Model.Encoder
     sdec <toks> <v=j,…>                                         -> ok <by> <typ> <cond> <texts> | err
     sterr <err> <content> <texts> <payload>                     -> tokens
     stdec <toks>                                                -> ok <err> <content> <texts> | err
+    wire <toks>                                                 -> tokens after printing and re-parsing | unbalanced
+    uerr <toks after the stanza's start> <v=j,…>                -> ok <by> <typ> <cond> <texts> | bad | missing
 -/
 namespace XmppModel.Driver.C13
 open XmppModel XmppModel.Xml XmppModel.Stanza
@@ -115,6 +117,17 @@ def handle (args : List String) : Option String :=
     let obs := (ord.zip got).map fun (p : Nat × List Tok) =>
       if p.2 == vs.getD p.1 [] then "own" else if p.2.isEmpty then "empty" else "foreign"
     pure (joinList obs)
+  | ["wire", toks] => do
+    let ts ← decToks toks
+    match wire ts with
+    | some w => pure (showToks w)
+    | none => pure "unbalanced"
+  | ["uerr", toks, table] => do
+    let ts ← decToks toks; let tb ← parseTable table
+    match unmarshalError (lookup tb) ts with
+    | .ok e => pure s!"ok {hx e.by_} {hx e.typ} {hx e.cond} {showTexts e.texts}"
+    | .bad => pure "bad"
+    | .missing => pure "missing"
   | ["stdec", toks] => do
     let ts ← decToks toks
     match decodeStreamErr ts with
